@@ -93,6 +93,15 @@ var errErrorInMessageHandler = StringValue("error in error handling")
 func (t *Thread) RunContinuation(c Cont) (err error) {
 	var next Cont
 	var errContCount = 0
+	if prev := t.currentCont; prev != nil {
+		// This is a nested run (e.g. a metamethod called from a Go function
+		// or from an opcode).  When it is over the continuation that made the
+		// call is current again, otherwise the continuations of successive
+		// nested calls, each created with t.CurrentCont() as its parent, form
+		// an ever growing chain that is reachable for as long as the caller
+		// runs.
+		defer func() { t.currentCont = prev }()
+	}
 	_ = t.triggerCall(t, c)
 	for c != nil {
 		if t != t.gcThread {
